@@ -4,7 +4,7 @@
    private operation is a function of the input only.  (The state-passing model is a model of the
    shared object under the translator's lock obligation: every access to blinder/unblinder lies
    inside `with self._lock`.) *)
-From Coq Require Import String ZArith List Bool Lia.
+From Coq Require Import String ZArith List Bool Lia Zpow_facts.
 From TV Require Import Base.Prelude Base.C11_Lib Gen.C11_RsaPrivOp Gen.C11_RsaDecrypt Spec.C11_Pkcs1Dec
   Proofs.C11_LibFacts Proofs.C11_Decrypt.
 Import ListNotations.
@@ -49,19 +49,33 @@ Proof.
     rewrite Z.mul_mod by lia. rewrite H. apply Z.mod_small. lia.
 Qed.
 
+(* the blinding pair the object holds after one operation: square both components (after drawing a fresh
+   pair when the object is not yet initialised) -- nothing else about the object changes *)
+Definition next_pair (b u : Z) : Z * Z :=
+  let b0 := if b =? 0 then powMod (invMod (grn 2 n) n) e n else b in
+  let u0 := if b =? 0 then grn 2 n else u in
+  ((b0 * b0) mod n, (u0 * u0) mod n).
+
+Lemma raw_private_op_step b u m : state_ok (b, u) ->
+  rawPrivateKeyOp helper grn invMod powMod n e b u m = Ok (helper m mod n, next_pair b u)
+  /\ blind_ok (fst (next_pair b u)) (snd (next_pair b u)).
+Proof.
+  intros H. unfold rawPrivateKeyOp, next_pair.
+  destruct (b =? 0) eqn:E; cbn [bind].
+  - repeat (rewrite py_mod_n; cbn [bind]).
+    destruct (core _ _ m Hinit) as [C1 C2]. rewrite C1. split; [reflexivity|exact C2].
+  - assert (Hb : blind_ok b u) by (destruct H as [H|H]; cbn [fst snd] in H; [lia|exact H]).
+    repeat (rewrite py_mod_n; cbn [bind]).
+    destruct (core b u m Hb) as [C1 C2]. rewrite C1. split; [reflexivity|exact C2].
+Qed.
+
 Lemma raw_private_op_spec b u m : state_ok (b, u) ->
   exists b' u', rawPrivateKeyOp helper grn invMod powMod n e b u m = Ok (helper m mod n, (b', u'))
                 /\ blind_ok b' u'.
 Proof.
-  intros H. unfold rawPrivateKeyOp.
-  assert (P : exists b0 u0,
-             (if b =? 0 then Ok (grn 2 n, powMod (invMod (grn 2 n) n) e n) else Ok (u, b)) = Ok (u0, b0)
-             /\ blind_ok b0 u0).
-  { destruct (b =? 0) eqn:E.
-    - eexists _, _. split; [reflexivity|exact Hinit].
-    - exists b, u. split; [reflexivity|]. destruct H as [H|H]; cbn [fst snd] in H; [lia|exact H]. }
-  destruct P as [b0 [u0 [-> Hb]]]. cbn [bind]. repeat (rewrite py_mod_n; cbn [bind]).
-  destruct (core b0 u0 m Hb) as [C1 C2]. rewrite C1. eexists _, _. split; [reflexivity|exact C2].
+  intros H. destruct (raw_private_op_step b u m H) as [E B].
+  exists (fst (next_pair b u)), (snd (next_pair b u)). rewrite E. split; [|exact B].
+  destruct (next_pair b u); reflexivity.
 Qed.
 
 (* a whole history of private operations on one key object *)
@@ -74,14 +88,45 @@ Fixpoint run_ops (st : Z * Z) (ms : list Z) : res (list Z * (Z * Z)) :=
       Ok (fst r :: fst r', snd r')
   end.
 
+Fixpoint iter_pair (k : nat) (st : Z * Z) : Z * Z :=
+  match k with O => st | S k' => iter_pair k' (next_pair (fst st) (snd st)) end.
+
+(* results AND state along any history: every result is helper(m) mod n, the state is next_pair iterated *)
 Lemma run_ops_spec ms : forall st, state_ok st ->
-  exists st', run_ops st ms = Ok (map (fun m => helper m mod n) ms, st') /\ state_ok st'.
+  run_ops st ms = Ok (map (fun m => helper m mod n) ms, iter_pair (length ms) st)
+  /\ state_ok (iter_pair (length ms) st).
 Proof.
-  induction ms as [|m ms IH]; intros [b u] H; cbn [run_ops map].
-  - eexists. split; [reflexivity|exact H].
-  - cbn [fst snd]. destruct (raw_private_op_spec b u m H) as [b' [u' [-> Hb]]]. cbn [bind fst snd].
-    destruct (IH (b', u') (or_intror Hb)) as [st' [-> Hs]]. cbn [bind fst snd].
-    eexists. split; [reflexivity|exact Hs].
+  induction ms as [|m ms IH]; intros [b u] H; cbn [run_ops map length iter_pair].
+  - split; [reflexivity|exact H].
+  - cbn [fst snd]. destruct (raw_private_op_step b u m H) as [-> Hb]. cbn [bind fst snd].
+    assert (S' : state_ok (next_pair b u)) by (right; exact Hb).
+    destruct (IH (next_pair b u) S') as [-> Hs]. cbn [bind fst snd].
+    split; [reflexivity|exact Hs].
+Qed.
+
+(* k squarings *)
+Fixpoint sq_iter (k : nat) (x : Z) : Z :=
+  match k with O => x | S k' => sq_iter k' ((x * x) mod n) end.
+
+(* once initialised, and as long as the blinder does not become 0, the pair after k operations is the
+   pair squared k times: (b^(2^k), u^(2^k)) mod n *)
+Lemma iter_pair_squares k : forall b u, (forall j, (j < k)%nat -> sq_iter j b <> 0) ->
+  iter_pair k (b, u) = (sq_iter k b, sq_iter k u).
+Proof.
+  induction k as [|k IH]; intros b u H; cbn [iter_pair sq_iter fst snd]; [reflexivity|].
+  assert (Hb : b <> 0) by (apply (H 0%nat); lia).
+  unfold next_pair. destruct (b =? 0) eqn:E; [lia|].
+  apply IH. intros j Hj. apply (H (S j)). lia.
+Qed.
+
+Lemma sq_iter_pow k : forall x, sq_iter k x mod n = x ^ (2 ^ Z.of_nat k) mod n.
+Proof.
+  induction k as [|k IH]; intros x; cbn [sq_iter].
+  - change (2 ^ Z.of_nat 0) with 1. rewrite Z.pow_1_r. reflexivity.
+  - rewrite IH. rewrite <- Zpower_mod by lia.
+    rewrite Nat2Z.inj_succ, Z.pow_succ_r by lia.
+    rewrite Z.pow_mul_r by (try apply Z.pow_nonneg; lia).
+    rewrite Z.pow_2_r. reflexivity.
 Qed.
 
 (* the private operation as decrypt sees it, for a given state of the key object *)
@@ -115,3 +160,15 @@ Proof.
   rewrite !E by assumption. split; reflexivity.
 Qed.
 End PrivOp.
+
+Lemma blinding_state_law_all : forall grn invMod powMod n e,
+  1 < n ->
+  (forall k b u, (forall j, (j < k)%nat -> sq_iter n j b <> 0) ->
+     iter_pair grn invMod powMod n e k (b, u) = (sq_iter n k b, sq_iter n k u)) /\
+  (forall k x, sq_iter n k x mod n = x ^ (2 ^ Z.of_nat k) mod n).
+Proof.
+  intros grn invMod powMod n e Hn. split.
+  - intros k b u H. apply iter_pair_squares. exact H.
+  - intros k x. apply sq_iter_pow. exact Hn.
+Qed.
+
